@@ -351,7 +351,14 @@ def j2(rep, src, impls):
         ps = [p["pat"]["name"] for p in f.params if not p.get("self")]
         from .util_terms import desugar_early_returns
 
-        oks = [(x, g) for x, g in walk_guards(desugar_early_returns(f.body)) if x["k"] == "call" and path_of(x["f"]) == "Ok"]  # `if !c { return Err } Ok(v)` == `if c { Ok(v) } else { Err }`
+        from .canon import subst as _subst
+
+        # `let domain = self.domain(); if !set.is_subset_of(&domain) { .. }`: a local that names the accessor is the accessor
+        acc = {l["pat"]["name"]: l["init"] for l in find(f.body, "let") if l["pat"]["k"] == "ident" and l.get("init") is not None and l["init"]["k"] == "mcall" and l["init"]["m"] in ("domain", "co_domain") and not l["init"]["args"] and path_of(l["init"]["recv"]) == "self"}
+        body_j2 = f.body
+        if acc and f.body["k"] == "block":
+            body_j2 = _subst(dict(f.body, stmts=[st for st in f.body["stmts"] if not (st["k"] == "let" and st["pat"]["k"] == "ident" and st["pat"]["name"] in acc)]), acc)
+        oks = [(x, g) for x, g in walk_guards(desugar_early_returns(body_j2)) if x["k"] == "call" and path_of(x["f"]) == "Ok"]  # `if !c { return Err } Ok(v)` == `if c { Ok(v) } else { Err }`
         want = {tests[0] % ps[first], tests[1] % ps[second]}
         rep.instance("J2", "Base::%s@Ok" % nm, {"fn": nm, "ok_sites": len(oks), "required_tests": sorted(want)})
         if len(oks) != 1:
@@ -373,7 +380,21 @@ def j2(rep, src, impls):
         ps = [p["pat"]["name"] for p in f.params if not p.get("self")]
         elem = [p["pat"]["name"] for p in f.params if not p.get("self") and p["ty"].replace(" ", "").startswith("&")]
         t = block_value(f.body)
-        ok = t is not None and t["k"] == "mcall" and t["m"] == callee and path_of(t["recv"]) == "self" and len(t["args"]) == 2 and elem and path_of(t["args"][0]) == elem[-1]
+
+        def through_guard(e):
+            """every value the expression can take is `self.<callee>(<the argument>, ..)` or an `Err(..)`"""
+            e = block_value(e) if e is not None and e["k"] == "block" else e
+            if e is None:
+                return False
+            if e["k"] == "match":
+                return all(through_guard(a["body"]) for a in e["arms"])
+            if e["k"] == "if" and e.get("else") is not None:
+                return through_guard(e["then"]) and through_guard(e["else"])
+            if e["k"] == "call" and path_of(e["f"]) == "Err":
+                return True
+            return e["k"] == "mcall" and e["m"] == callee and path_of(e["recv"]) == "self" and len(e["args"]) == 2 and bool(elem) and path_of(e["args"][0]) == elem[-1]
+
+        ok = t is not None and through_guard(t) and any(x["k"] == "mcall" and x["m"] == callee for x in walk(t))
         rep.instance("J2", "Base::%s@return" % nm, {"fn": nm, "returns": show(t, 70)})
         if not ok:
             rep.violation("J2", "Base::%s@return" % nm, "%s does not return self.%s(<its argument>, ..): %s" % (nm, callee, show(t, 80)), f.where())
@@ -495,6 +516,21 @@ def closure_results(c):
             out.append(e)
 
     rec(c["body"])
+    # early `return x;` statements inside the closure are results as well (`if bad { return None; } Some(v)`)
+    def returns(n, top=True):
+        if isinstance(n, list):
+            for x in n:
+                returns(x, top)
+        elif isinstance(n, dict):
+            if n.get("k") == "closure" and not top:
+                return
+            if n.get("k") == "return" and n.get("e") is not None:
+                out.append(n["e"])
+            for v in n.values():
+                if isinstance(v, (dict, list)):
+                    returns(v, False)
+
+    returns(c["body"])
     return out
 
 
